@@ -80,17 +80,18 @@ def need (w : Bool) (n : Nat) : Nat := if w then n else 1
 
 def waitPc (w : Bool) (n : Nat) : Pc → Bool
   | .p80 w' n' | .p81 w' n' _ | .p82 w' n' _ | .p83 w' n' _ | .p84 w' n' _ | .p85 w' n' _ | .p86 w' n' _
-  | .p86w w' n' _ | .p87 w' n' _ | .p88 w' n' _ _ => w' == w && n' == n
+  | .p86w w' n' _ | .p87 w' n' _ | .p88 w' n' _ _ | .p84r w' n' _ => w' == w && n' == n
   | .p89c w' _ _ _ _ _ => w' == w
   | _ => false
 
+/-- the call has seen `done` (it is about to look at the producer cursor again, or to return end-of-stream) -/
 def at85 : Pc → Bool
-  | .p85 _ _ _ => true
+  | .p84r _ _ _ | .p85 _ _ _ => true
   | _ => false
 
-/-- the consumer has found too little data and not yet looked again -/
+/-- the call has decided to return end-of-stream (`done` seen, and then still too little data) -/
 def sawPc : Pc → Bool
-  | .p84 _ _ _ | .p85 _ _ _ => true
+  | .p85 _ _ _ => true
   | _ => false
 
 /-- the result the wrap copy will return was fixed when the lock was released -/
@@ -112,7 +113,8 @@ def waitRes (w : Bool) (n : Nat) (r : Res) : Prop :=
 
 inductive WaitOut (cfg : Cfg) (w : Bool) (n : Nat) (rest : List Call) (sh sh' : Sh) (th th' : Th) : Prop where
   | stay : CWait cfg w n rest sh' th' → sh'.cseq = sh.cseq → sh'.pseq = sh.pseq →
-      (sawPc th.pc = false → sawPc th'.pc = true → sh.pseq - sh.cseq < need w n) → WaitOut cfg w n rest sh sh' th th'
+      (sawPc th.pc = false → sawPc th'.pc = true → sh.done = true ∧ sh.pseq - sh.cseq < need w n) →
+      WaitOut cfg w n rest sh sh' th th'
   | ret (r : Res) : th'.pc = .idle → th'.prog = rest → th'.res = some r → sh'.cseq = sh.cseq → sh'.pseq = sh.pseq →
       ((r.err = .eof ∧ sh.done = true ∧ sawPc th.pc = true) ∨ (waitRes w n r ∧ r.n ≤ sh.pseq - sh.cseq)) →
       WaitOut cfg w n rest sh sh' th th'
@@ -144,20 +146,27 @@ theorem wait_own (cfg : Cfg) (base : Nat) (w : Bool) (n : Nat) (rest : List Call
     exact .stay ⟨rfl, rfl, by simp [waitPc, Th.goto], nofun, hfit, trivial⟩ (by simp) (by simp) nofun
   case p83 w' n' cpos =>
     obtain ⟨rfl, rfl⟩ := hpc
-    simp only [pcC] at hp
-    have e1 : cpos = sh.cseq := hp
     tstep_norm
     rcases hs with ⟨h1, rfl, rfl⟩ | ⟨h1, rfl, rfl⟩
-    · refine .stay ⟨rfl, rfl, by simp [waitPc, Th.goto], nofun, hfit, trivial⟩ rfl rfl (fun _ _ => ?_)
-      subst e1
-      cases w' <;> simp [mustWait, need] at h1 ⊢ <;> omega
+    · exact .stay ⟨rfl, rfl, by simp [waitPc, Th.goto], nofun, hfit, trivial⟩ rfl rfl (fun _ h => by simp [Th.goto, sawPc] at h)
     · exact .stay ⟨rfl, rfl, by simp [waitPc, Th.goto], nofun, hfit, trivial⟩ rfl rfl (fun _ h => by simp [Th.goto, sawPc] at h)
   case p84 w' n' cpos =>
     obtain ⟨rfl, rfl⟩ := hpc
     tstep_norm
     rcases hs with ⟨h1, rfl, rfl⟩ | ⟨h1, rfl, rfl⟩
-    · exact .stay ⟨rfl, rfl, by simp [waitPc, Th.goto], fun _ => h1, hfit, trivial⟩ rfl rfl (fun h _ => by simp [sawPc] at h)
-    · exact .stay ⟨rfl, rfl, by simp [waitPc, Th.goto], nofun, hfit, trivial⟩ rfl rfl (fun h _ => by simp [sawPc] at h)
+    · exact .stay ⟨rfl, rfl, by simp [waitPc, Th.goto], fun _ => h1, hfit, trivial⟩ rfl rfl (fun _ h => by simp [Th.goto, sawPc] at h)
+    · exact .stay ⟨rfl, rfl, by simp [waitPc, Th.goto], nofun, hfit, trivial⟩ rfl rfl (fun _ h => by simp [Th.goto, sawPc] at h)
+  case p84r w' n' cpos =>
+    obtain ⟨rfl, rfl⟩ := hpc
+    have hdn : sh.done = true := hd85 rfl
+    simp only [pcC] at hp
+    have e1 : cpos = sh.cseq := hp
+    tstep_norm
+    rcases hs with ⟨h1, rfl, rfl⟩ | ⟨h1, rfl, rfl⟩
+    · refine .stay ⟨rfl, rfl, by simp [waitPc, Th.goto], fun _ => hdn, hfit, trivial⟩ rfl rfl (fun _ _ => ⟨hdn, ?_⟩)
+      subst e1
+      cases w' <;> simp [mustWait, need] at h1 ⊢ <;> omega
+    · exact .stay ⟨rfl, rfl, by simp [waitPc, Th.goto], nofun, hfit, trivial⟩ rfl rfl (fun _ h => by simp [Th.goto, sawPc] at h)
   case p85 w' n' cpos =>
     obtain ⟨rfl, rfl⟩ := hpc
     have hdn : sh.done = true := hd85 rfl
@@ -176,13 +185,9 @@ theorem wait_own (cfg : Cfg) (base : Nat) (w : Bool) (n : Nat) (rest : List Call
     exact .stay ⟨rfl, rfl, by simp [waitPc, Th.goto], nofun, hfit, trivial⟩ (by simp) (by simp) (fun _ h => by simp [Th.goto, sawPc] at h)
   case p87 w' n' cpos =>
     obtain ⟨rfl, rfl⟩ := hpc
-    simp only [pcC] at hp
-    have e1 : cpos = sh.cseq := hp
     tstep_norm
     rcases hs with ⟨h1, rfl, rfl⟩ | ⟨h1, rfl, rfl⟩
-    · refine .stay ⟨rfl, rfl, by simp [waitPc, Th.goto], nofun, hfit, trivial⟩ rfl rfl (fun _ _ => ?_)
-      subst e1
-      cases w' <;> simp [mustWait, need] at h1 ⊢ <;> omega
+    · exact .stay ⟨rfl, rfl, by simp [waitPc, Th.goto], nofun, hfit, trivial⟩ rfl rfl (fun _ h => by simp [Th.goto, sawPc] at h)
     · exact .stay ⟨rfl, rfl, by simp [waitPc, Th.goto], nofun, hfit, trivial⟩ rfl rfl (fun _ h => by simp [Th.goto, sawPc] at h)
   case p88 w' n' cpos ppos =>
     obtain ⟨rfl, rfl⟩ := hpc
@@ -235,10 +240,21 @@ theorem wait_own (cfg : Cfg) (base : Nat) (w : Bool) (n : Nat) (rest : List Call
 theorem waitPc_not_idle (w : Bool) (n : Nat) (pc : Pc) (h : waitPc w n pc = true) : pc ≠ .idle := by
   intro e; rw [e] at h; simp [waitPc] at h
 
+/-- the linearisation step of a consumer wait answering end-of-stream: an own step `x → y` of thread `c` — the load of the
+producer cursor AFTER `done` has been seen — before which `done` is set and fewer than `nd` bytes are buffered, and which
+changes nothing `absRing` sees -/
+def LinE (cfg : Cfg) (nd : Nat) (x y : St) : Prop :=
+  step cfg x .c = some y ∧ x.sh.done = true ∧ x.sh.pseq - x.sh.cseq < nd ∧ y.sh.pseq = x.sh.pseq ∧
+    y.sh.cseq = x.sh.cseq ∧ y.sh.done = x.sh.done
+
+theorem waitPc_not_x10 (w : Bool) (n : Nat) (pc : Pc) (h : waitPc w n pc = true) : pc ≠ .x10 := by
+  intro e; rw [e] at h; simp [waitPc] at h
+
 /-- the call-level contract of `ReadWait` / `ReadPeek`, seen from a state `s` inside the call -/
 structure WConcl (cfg : Cfg) (w : Bool) (n : Nat) (s : St) (sched : List Tid) (r : Res) : Prop where
   frame : (run cfg s sched).sh.cseq = s.sh.cseq
-  eof : r.err = .eof → (run cfg s sched).sh.done = true ∧ (sawPc s.C.pc = false → s.sh.pseq - s.sh.cseq < need w n)
+  eof : r.err = .eof → (run cfg s sched).sh.done = true ∧
+    (sawPc s.C.pc = false → ∃ pre post, sched = pre ++ .c :: post ∧ LinE cfg (need w n) (run cfg s pre) (run cfg s (pre ++ [.c])))
   data : r.err ≠ .eof → waitRes w n r ∧ r.n ≤ (run cfg s sched).sh.pseq - (run cfg s sched).sh.cseq
 
 theorem wcall_in (cfg : Cfg) (base : Nat) (w : Bool) (n : Nat) (rest : List Call)
@@ -247,20 +263,34 @@ theorem wcall_in (cfg : Cfg) (base : Nat) (w : Bool) (n : Nat) (rest : List Call
   induction sched generalizing s with
   | nil => exact absurd hret.1 (waitPc_not_idle w n _ hw.pc)
   | cons t ts ih =>
+    have liftE : ∀ (s' : St), (∀ pre : List Tid, run cfg s (t :: pre) = run cfg s' pre) →
+        (∃ pre post, ts = pre ++ .c :: post ∧ LinE cfg (need w n) (run cfg s' pre) (run cfg s' (pre ++ [.c]))) →
+        (∃ pre post, t :: ts = pre ++ .c :: post ∧ LinE cfg (need w n) (run cfg s pre) (run cfg s (pre ++ [.c]))) := by
+      intro s' hpre1 ⟨pre, post, b3, b4⟩
+      refine ⟨t :: pre, post, by rw [b3]; rfl, ?_⟩
+      rw [hpre1 pre, show t :: pre ++ [Tid.c] = t :: (pre ++ [Tid.c]) from rfl, hpre1]; exact b4
     cases hs : step cfg s t with
     | none =>
       have hrun : run cfg s (t :: ts) = run cfg s ts := by rw [run_cons, hs]; rfl
+      have hpre1 : ∀ pre : List Tid, run cfg s (t :: pre) = run cfg s pre := fun pre => by rw [run_cons, hs]; rfl
       rw [hrun] at hret
       obtain ⟨a1, a2, a3⟩ := ih s h hw hret
-      exact ⟨by rw [hrun]; exact a1, by rw [hrun]; exact a2, by rw [hrun]; exact a3⟩
+      refine ⟨by rw [hrun]; exact a1, fun he => ?_, by rw [hrun]; exact a3⟩
+      obtain ⟨x, y⟩ := a2 he
+      exact ⟨by rw [hrun]; exact x, fun hns => liftE s hpre1 (y hns)⟩
     | some s' =>
       have hrun : run cfg s (t :: ts) = run cfg s' ts := by rw [run_cons, hs]; rfl
+      have hpre1 : ∀ pre : List Tid, run cfg s (t :: pre) = run cfg s' pre := fun pre => by rw [run_cons, hs]; rfl
       rw [hrun] at hret
       have h' := inv_step cfg base s s' t h hs
       have hm := run_mono cfg base s' ts h'
       by_cases htc : t = .c
       · subst htc
         obtain ⟨hst, _, _⟩ := step_c cfg s s' hs
+        have hdn : s'.sh.done = s.sh.done := by
+          rcases tstep_done cfg _ _ _ _ _ hst with e | ⟨e, _⟩
+          · exact e
+          · exact absurd e (waitPc_not_x10 w n _ hw.pc)
         cases wait_own cfg base w n rest _ _ _ _ h.glob.cp h.invC.pcinv hw hst with
         | stay hw' ec ep hsaw =>
           obtain ⟨a1, a2, a3⟩ := ih s' h' hw' hret
@@ -270,11 +300,14 @@ theorem wcall_in (cfg : Cfg) (base : Nat) (w : Bool) (n : Nat) (rest : List Call
           obtain ⟨x, y⟩ := a2 he
           refine ⟨x, fun hns => ?_⟩
           by_cases hs' : sawPc s'.C.pc = true
-          · exact hsaw hns hs'
-          · have := y (by simpa using hs')
-            have ec' : s'.sh.cseq = s.sh.cseq := ec
-            have ep' : s'.sh.pseq = s.sh.pseq := ep
-            omega
+          · obtain ⟨hd0, hlt⟩ := hsaw hns hs'
+            refine ⟨[], ts, rfl, ?_⟩
+            have : run cfg s ([] ++ [Tid.c]) = s' := by
+              show run cfg s [Tid.c] = s'
+              rw [run_one, hs]; rfl
+            rw [this]
+            exact ⟨hs, hd0, hlt, ep, ec, hdn⟩
+          · exact liftE s' hpre1 (y (by simpa using hs'))
         | ret r1 hi hpr hr1 ec ep hcase =>
           obtain ⟨f1, f2⟩ := idle_frame_c cfg base s' ts h' hi (by rw [hret.2.1, hpr])
           have hr : (run cfg s' ts).C.res = some r := hret.2.2
@@ -286,11 +319,7 @@ theorem wcall_in (cfg : Cfg) (base : Nat) (w : Bool) (n : Nat) (rest : List Call
           · intro he
             rw [hrun]
             rcases hcase with ⟨_, hd, hsw⟩ | ⟨hwr, _⟩
-            · have hd' : s'.sh.done = true := by
-                rcases tstep_done cfg _ _ _ _ _ hst with e | ⟨_, e⟩
-                · rw [e]; exact hd
-                · exact e
-              exact ⟨run_done_mono cfg s' ts hd', fun hns => by rw [hsw] at hns; cases hns⟩
+            · exact ⟨run_done_mono cfg s' ts (by rw [hdn]; exact hd), fun hns => by rw [hsw] at hns; cases hns⟩
             · rcases hwr.2.2.2 with e | e <;> rw [he] at e <;> cases e
           · intro hne
             rw [hrun]
@@ -302,7 +331,6 @@ theorem wcall_in (cfg : Cfg) (base : Nat) (w : Bool) (n : Nat) (rest : List Call
               omega
       · have e := step_C_other cfg s s' t hs htc
         have ec := step_cseq cfg base s s' t h hs htc
-        have ep := (step_mono cfg base s s' t h hs).1
         have hw' : CWait cfg w n rest s'.sh s'.C := by
           rw [e]
           exact ⟨hw.cur, hw.prog, hw.pc, fun h85 => step_done_mono cfg s s' t hs (hw.d85 h85), hw.fits, hw.copy⟩
@@ -311,9 +339,7 @@ theorem wcall_in (cfg : Cfg) (base : Nat) (w : Bool) (n : Nat) (rest : List Call
         intro he
         rw [hrun]
         obtain ⟨x, y⟩ := a2 he
-        refine ⟨x, fun hns => ?_⟩
-        have := y (by rw [e]; exact hns)
-        omega
+        exact ⟨x, fun hns => liftE s' hpre1 (y (by rw [e]; exact hns))⟩
 
 /-- the first step of `ReadWait(n)` / `ReadPeek(n)`: the size test -/
 theorem wait_start_own (cfg : Cfg) (w : Bool) (n : Nat) (rest : List Call) (sh sh' : Sh) (th th' : Th)
@@ -350,7 +376,8 @@ theorem wait_start_own (cfg : Cfg) (w : Bool) (n : Nat) (rest : List Call) (sh s
 structure WStartConcl (cfg : Cfg) (w : Bool) (n : Nat) (s : St) (sched : List Tid) (r : Res) : Prop where
   frame : (run cfg s sched).sh.cseq = s.sh.cseq
   full : r.err = .full ↔ cfg.size < n
-  eof : r.err = .eof → (run cfg s sched).sh.done = true ∧ s.sh.pseq - s.sh.cseq < need w n
+  eof : r.err = .eof → (run cfg s sched).sh.done = true ∧
+    ∃ pre post, sched = pre ++ .c :: post ∧ LinE cfg (need w n) (run cfg s pre) (run cfg s (pre ++ [.c]))
   data : r.err ≠ .eof → r.err ≠ .full → waitRes w n r ∧ r.n ≤ (run cfg s sched).sh.pseq - (run cfg s sched).sh.cseq
 
 theorem wcall_start (cfg : Cfg) (base : Nat) (w : Bool) (n : Nat) (rest : List Call)
@@ -364,14 +391,24 @@ theorem wcall_start (cfg : Cfg) (base : Nat) (w : Bool) (n : Nat) (rest : List C
     have := congrArg List.length h2
     simp at this
   | cons t ts ih =>
+    have liftE : ∀ (s' : St), (∀ pre : List Tid, run cfg s (t :: pre) = run cfg s' pre) →
+        (∃ pre post, ts = pre ++ .c :: post ∧ LinE cfg (need w n) (run cfg s' pre) (run cfg s' (pre ++ [.c]))) →
+        (∃ pre post, t :: ts = pre ++ .c :: post ∧ LinE cfg (need w n) (run cfg s pre) (run cfg s (pre ++ [.c]))) := by
+      intro s' hpre1 ⟨pre, post, b3, b4⟩
+      refine ⟨t :: pre, post, by rw [b3]; rfl, ?_⟩
+      rw [hpre1 pre, show t :: pre ++ [Tid.c] = t :: (pre ++ [Tid.c]) from rfl, hpre1]; exact b4
     cases hs : step cfg s t with
     | none =>
       have hrun : run cfg s (t :: ts) = run cfg s ts := by rw [run_cons, hs]; rfl
+      have hpre1 : ∀ pre : List Tid, run cfg s (t :: pre) = run cfg s pre := fun pre => by rw [run_cons, hs]; rfl
       rw [hrun] at hret
       obtain ⟨a1, a2, a3, a4⟩ := ih s h hidle hprog hret
-      exact ⟨by rw [hrun]; exact a1, a2, by rw [hrun]; exact a3, by rw [hrun]; exact a4⟩
+      refine ⟨by rw [hrun]; exact a1, a2, fun he => ?_, by rw [hrun]; exact a4⟩
+      obtain ⟨x, y⟩ := a3 he
+      exact ⟨by rw [hrun]; exact x, liftE s hpre1 y⟩
     | some s' =>
       have hrun : run cfg s (t :: ts) = run cfg s' ts := by rw [run_cons, hs]; rfl
+      have hpre1 : ∀ pre : List Tid, run cfg s (t :: pre) = run cfg s' pre := fun pre => by rw [run_cons, hs]; rfl
       rw [hrun] at hret
       have h' := inv_step cfg base s s' t h hs
       by_cases htc : t = .c
@@ -388,7 +425,7 @@ theorem wcall_start (cfg : Cfg) (base : Nat) (w : Bool) (n : Nat) (rest : List C
               have := (a3 (by rw [hf]; simp)).1.2.2.2
               rcases this with e | e <;> rw [hf] at e <;> cases e
             · intro hbig; exact absurd hw'.fits (by omega)
-          · intro he; rw [hrun]; obtain ⟨x, y⟩ := a2 he; exact ⟨x, by have := y hns; rw [esh'] at this; exact this⟩
+          · intro he; rw [hrun]; obtain ⟨x, y⟩ := a2 he; exact ⟨x, liftE s' hpre1 (y hns)⟩
           · intro hne _; rw [hrun]; exact a3 hne
         · obtain ⟨f1, f2⟩ := idle_frame_c cfg base s' ts h' hi (by rw [hret.2.1, hpr])
           have hr : (run cfg s' ts).C.res = some r := hret.2.2
@@ -399,13 +436,12 @@ theorem wcall_start (cfg : Cfg) (base : Nat) (w : Bool) (n : Nat) (rest : List C
           · intro _ hnf; exact absurd hfull hnf
       · have e := step_C_other cfg s s' t hs htc
         have ec := step_cseq cfg base s s' t h hs htc
-        have ep := (step_mono cfg base s s' t h hs).1
         obtain ⟨a1, a2, a3, a4⟩ := ih s' h' (by rw [e]; exact hidle) (by rw [e]; exact hprog) hret
         refine ⟨by rw [hrun, a1, ec], a2, ?_, by rw [hrun]; exact a4⟩
         intro he
         rw [hrun]
         obtain ⟨x, y⟩ := a3 he
-        exact ⟨x, by omega⟩
+        exact ⟨x, liftE s' hpre1 y⟩
 
 /-! ### `ReadCommit(n)` -/
 
